@@ -245,7 +245,8 @@ pub struct HvcCArray {
 }
 
 impl<R: Read + Seek> ReadBox<&mut R> for HvcCBox {
-    fn read_box(reader: &mut R, _size: u64) -> Result<Self> {
+    fn read_box(reader: &mut R, size: u64) -> Result<Self> {
+        let box_end = box_start(reader)? + size;
         let configuration_version = reader.read_u8()?;
         let params = reader.read_u8()?;
         let general_profile_space = (params & 0b11000000) >> 6;
@@ -278,6 +279,9 @@ impl<R: Read + Seek> ReadBox<&mut R> for HvcCBox {
 
             for _ in 0..num_nalus {
                 let size = reader.read_u16::<BigEndian>()?;
+                if reader.stream_position()? + size as u64 > box_end {
+                    return Err(Error::InvalidData("hvcC nal unit overruns the box"));
+                }
                 let mut data = vec![0; size as usize];
 
                 reader.read_exact(&mut data)?;
